@@ -119,14 +119,45 @@ func loadProg(patterns []string) (*Prog, error) {
 }
 
 // encodeFunc produces the obligations of one function under contract.
+// instantiations parses `option instantiate <param>: v1,v2,...` into one binding per value (nil: none).
+func instantiations(spec *FuncSpec) (string, []string) {
+	v, ok := spec.Options["instantiate"]
+	if !ok {
+		return "", nil
+	}
+	parts := strings.SplitN(v, ":", 2)
+	if len(parts) != 2 {
+		return "", nil
+	}
+	var vals []string
+	for _, x := range strings.Split(parts[1], ",") {
+		if x = strings.TrimSpace(x); x != "" {
+			vals = append(vals, x)
+		}
+	}
+	return strings.TrimSpace(parts[0]), vals
+}
+
 func (p *Prog) encodeFunc(fn *ssa.Function, spec *FuncSpec) *Enc {
+	return p.encodeFuncWith(fn, spec, "", "")
+}
+
+// encodeFuncWith encodes fn with parameter `bindName` fixed to the literal `bindVal` (a per-value instance).
+func (p *Prog) encodeFuncWith(fn *ssa.Function, spec *FuncSpec, bindName, bindVal string) *Enc {
 	e := newEnc(p, fn, spec)
+	if bindName != "" {
+		e.instance = "@" + bindName + "=" + bindVal
+	}
 	st := &state{regs: map[string]string{}, stale: map[string]int{}}
 	fr := e.newFrame(fn, spec, 0)
 	fr.isRoot = true
 	var args []string
 	for _, prm := range fn.Params {
 		t := e.fresh("p."+prm.Name(), e.st.sortOf(prm.Type()))
+		if prm.Name() == bindName {
+			e.assume(eq(t, bindVal))
+			t = bindVal // use the literal itself so that every term mentioning the parameter is constant
+		}
 		args = append(args, t)
 		fr.wellFormed(prm.Type(), t, st)
 		e.rootParams = append(e.rootParams, paramModel{Name: prm.Name(), Type: prm.Type().String(), Term: t, Kind: kindOf(prm.Type())})
@@ -344,6 +375,12 @@ func runProp(p *Prog, prop string, secs int, smtDir string) ([]*funcResult, []st
 		if fn == nil || fn.Blocks == nil {
 			problems = append(problems, fmt.Sprintf("contract names %s but no such function body exists (removed or renamed?)", name))
 			results = append(results, &funcResult{spec: sp})
+			continue
+		}
+		if pn, vals := instantiations(sp); len(vals) > 0 {
+			for _, v := range vals {
+				results = append(results, &funcResult{spec: sp, fn: fn, enc: p.encodeFuncWith(fn, sp, pn, v)})
+			}
 			continue
 		}
 		e := p.encodeFunc(fn, sp)
